@@ -193,6 +193,29 @@ CLAIMED["C20"] = dict(
     note="The compound is recorded in the user dictionary twice (by the handler and by the updater) — harmless for the property. "
          + SRV_NOTE, design="6/C20")
 
+CLAIMED["C11"] = dict(
+    engine="lean+corr_builder",
+    technique="Lean 4 proofs about the builder's fold (every word that enters is stored under its reading, nothing else is stored, "
+              "every reading spelled in the alphabet reaches the trie key set; induction over the word list) + the real chokan-dic "
+              "binary on generated sources, image loaded through postcard and compared with the model",
+    text="C11_complete, C11_sound, C11_trie_keys (and buildMap_eq_fill tying them to the model of read_and_make_dictionary) are "
+         "kernel-checked; images built by the real binary from sources up to 1500 (thorough 20000) entries are dumped, compared "
+         "with the model, queried for trie membership, conversion and single-kanji lookup.",
+    note="postcard/serde modelled as identity (validated by loading the real image); the stable sort is modelled by insertion sort "
+         "(permutation not yet proved); real trie = key set is C04. Axioms: propext, Classical.choice, Quot.sound.",
+    design="6/C11")
+CLAIMED["C18"] = dict(
+    engine="lean+corr_skk",
+    technique="Lean 4 model of the SKK-JISYO grammar and the noun/jinmei/tankan converters with proofs about what a successful parse "
+              "returns and that every emitted line is a storable dictionary line (via C10_entry) + differential run on well-formed, "
+              "odd and arbitrary lines; notes grammar/converter checked on the implementation against a reference semantics",
+    text="C18_parse_shape, C18_words_shape, C18_emitted_valid (nouns, propers, single kanji; for candidates without TAB), "
+         "C18_noun_skips_okuri are kernel-checked; all five real parsers/converters are run on generated lines, every emitted "
+         "line is re-read by the real dictionary reader, base verb notes are conjugated and their okuri row checked.",
+    note="PARTIAL: skk-notes-converter (note_grammer.rs, converter.rs) is not modelled in Lean; totality/faithfulness of notes are "
+         "decided by the executable oracle only. One known finding (D13). Axioms: propext, Classical.choice, Quot.sound.",
+    design="6/C18")
+
 NOT_YET = "machinery for this property is not built yet in this round (work in progress; see DESIGN.md section 9)"
 
 
